@@ -20,6 +20,10 @@ func main() {
 		"non-trivial = the outcome of the run differs from the outcome of running the threads one after the other (thread 0 " +
 		"first), or a goroutine was blocked on the name lock, or a file was instantiated while another goroutine was inside " +
 		"the same load; distinct = distinct (program, executed schedule) pairs among those. " +
+		"declaration programs (reg.go): a case is (one list of Decl/Do operations per goroutine, schedule) at the yield points of resolveResolvables; " +
+		"checked directly (no panic but that of a Do which takes a declaration that cannot be resolved, outcome vector of some sequential order, " +
+		"everything declared is resolved exactly once and usable after one more Do, no deadlock) and a sample goes to ConcReg.rexec; non-trivial = " +
+		"a goroutine waited for the resolve lock or moved between two steps of another goroutine's Do. " +
 		"free-running part: the race-detector build of the stress program (cmd/c13race), every report of the race detector and every functional failure is a violation"
 	setupRuntime(cfg.Out)
 	installHook()
